@@ -62,7 +62,7 @@ def main():
         "checks": checks,
         "not_applicable": [{"property_id": p, "reason": r} for p, r in sorted(na.items()) if p not in claims],
         "notes": "All checks: exit 0 held / 1 VIOLATION (after replay on the real code) / 2 engine could not encode or vacuous "
-                 "harness / 3 counterexample did not replay (harness bug). Known findings: known_findings.json. /repo carries 16 "
+                 "harness / 3 counterexample did not replay (harness bug). Known findings: known_findings.json. /repo carries 17 "
                  "unguarded `fix:` commits on top of the pinned snapshot (listed as status=fixed in known_findings.json); no hook or "
                  "instrumentation commit was needed (source_commits is empty); the pinned suite passes with them (10880 passed, the "
                  "10 baseline always-fail tests unchanged).",
